@@ -131,15 +131,30 @@ fn op_mc(em: &mut Em, tags: Vec<usize>, labels: Vec<usize>, tab: Vec<Vec<u32>>, 
                 if i >= out.len() {
                     break;
                 }
-                // label of the first member with the highest probability
-                let mut best = 0;
-                for k in 1..tab.len() {
-                    if tab[k][*t] > tab[best][*t] {
-                        best = k;
-                    }
-                }
-                ctx.require(out[i] == labels[best], "label_of_highest_probability", &class, || format!("row {} (tag {}): got label {}, member {} (label {}) has the highest probability", i, t, out[i], best, labels[best]));
+                // label of a member with the highest probability (the statement fixes no tie-break)
+                let mx = tab.iter().map(|r| r[*t]).max().unwrap();
+                let winners: Vec<usize> = (0..tab.len()).filter(|k| tab[*k][*t] == mx).map(|k| labels[k]).collect();
+                ctx.require(winners.contains(&out[i]), "label_of_highest_probability", &class, || format!("row {} (tag {}): got label {}, the members with the highest probability have labels {:?}", i, t, out[i], winners));
+                // the same row alone must get the same label (ties included)
+                let one = tag_rows(&[*t]);
+                let r: Array1<usize> = model.predict(&one);
+                ctx.require(r.len() == 1 && r[0] == out[i], "batch_eq_rowwise", &class, || format!("row {} (tag {}): label {} in the batch, {:?} alone", i, t, out[i], r));
             }
+        }
+        if valid && out.len() == tags.len() {
+            // a row on which several members tie for the maximum is written as the set of their labels
+            // (when the label returned is one of them): which of them wins is not part of the property
+            let cells: Vec<String> = tags
+                .iter()
+                .zip(out.iter())
+                .map(|(t, l)| {
+                    let mx = tab.iter().map(|r| r[*t]).max().unwrap();
+                    let mut w: Vec<usize> = (0..tab.len()).filter(|k| tab[*k][*t] == mx).map(|k| labels[k]).collect();
+                    w.sort();
+                    if w.len() > 1 && w.contains(l) { format!("t{}", w.iter().map(|x| x.to_string()).collect::<Vec<_>>().join("|")) } else { l.to_string() }
+                })
+                .collect();
+            return format!("ok {}", cells.join(","));
         }
         format!("ok {}", list(out.iter(), |x| x.to_string()))
     };
@@ -279,6 +294,24 @@ fn rowwise_f(ctx: &mut Ctx, kind: &str, batch: &Array2<f64>, out: &[Vec<f64>], o
     }
 }
 
+/// membership cells of a k-means response: a row exactly equidistant (sequential f64 sum of squares)
+/// from several nearest centroids is written as the set of their indices when the index returned is
+/// one of them — which of them wins is not part of the property
+fn kmeans_cells(cents: &Array2<f64>, batch: &Array2<f64>, out: &Array1<usize>) -> String {
+    let cells: Vec<String> = batch
+        .rows()
+        .into_iter()
+        .zip(out.iter())
+        .map(|(r, l)| {
+            let d: Vec<f64> = cents.rows().into_iter().map(|c| c.iter().zip(r.iter()).fold(0.0, |s, (a, b)| s + (a - b) * (a - b))).collect();
+            let dm = d.iter().cloned().fold(f64::INFINITY, f64::min);
+            let w: Vec<usize> = (0..d.len()).filter(|k| d[*k] == dm).collect();
+            if w.len() > 1 && w.contains(l) { format!("t{}", w.iter().map(|x| x.to_string()).collect::<Vec<_>>().join("|")) } else { l.to_string() }
+        })
+        .collect();
+    cells.join(",")
+}
+
 fn op_kmeans(em: &mut Em, rng: &mut Rng) {
     use linfa_clustering::KMeans;
     let p = 1 + rng.below(3);
@@ -318,7 +351,7 @@ fn op_kmeans(em: &mut Em, rng: &mut Rng) {
             let r: Array1<usize> = model.predict(&batch.slice(ndarray::s![i..i + 1, ..]).to_owned());
             ctx.require(r.len() == 1 && r[0] == out[i], "batch_eq_rowwise", "kmeans", || format!("row {} alone {:?} vs in the batch {}", i, r, out[i]));
         }
-        format!("ok {}", list(out.iter(), |x| x.to_string()))
+        format!("ok {}", kmeans_cells(&cents, &batch, &out))
     });
     // the in-place form into a pre-filled membership buffer
     let pl = pre_len(rng, em, batch.nrows(), "kmeans");
@@ -332,7 +365,7 @@ fn op_kmeans(em: &mut Em, rng: &mut Rng) {
             let fresh: Array1<usize> = model.predict(&batch);
             ctx.require(y == fresh, "inplace_into_supplied_buffer", "kmeans", || format!("pre-filled buffer gives {:?}, a fresh one {:?}", y, fresh));
         }
-        format!("ok {}", list(y.iter(), |x| x.to_string()))
+        if ok { format!("ok {}", kmeans_cells(&cents, &batch, &y)) } else { format!("ok {}", list(y.iter(), |x| x.to_string())) }
     };
     if ok {
         em.case_valid(op, "kmeans:inplace", body)
@@ -627,7 +660,8 @@ fn op_iso(em: &mut Em, rng: &mut Rng) {
     // queries: knots, between knots, outside the range
     let mut pool = Array2::zeros((8, 1));
     for i in 0..8 {
-        pool[(i, 0)] = match rng.below(3) {
+        pool[(i, 0)] = match rng.below(if i == 7 { 4 } else { 3 }) {
+            3 => f64::NAN, // an unordered query: neither branch of the clamp, no knot found
             0 => reg[rng.below(reg.len())],
             1 => rng.range(-20, 20) as f64 / 4.0,
             _ => {
